@@ -257,14 +257,116 @@ theorem find_noAny (env : Env) (h : env.noAny = true) (name : String) (ps : List
     rw [hd] at this
     exact fun p hp => List.all_eq_true.mp this p hp
 
+/-! ## `Any`: recognised chunks -/
+
+/-- every chunk the specification-side oracle recognises is an encoder tree (compact JSON as
+`json.Compact` / the codec itself writes it) -/
+def ChunkLaws (O : Oracle) : Prop := ∀ bs V, O.chunk bs = some V → V.Enc
+
+/-- the laws about the text oracles do not involve the specification-side chunk recogniser -/
+theorem oracleLaws_withChunk (O : Oracle) (L : OracleLaws O) (g : Bytes → Option PTree) :
+    OracleLaws { O with chunk := g } :=
+  ⟨L.f64, L.f32, L.time, L.dec, L.timeUtf8⟩
+
+theorem chunkLaws_default (O : Oracle) (h : O.chunk = fun _ => none) : ChunkLaws O := by
+  intro bs V hc; rw [h] at hc; cases hc
+
+theorem chunkNode_enc (O : Oracle) (hC : ChunkLaws O) (bs : Bytes) (h : chunkKnown O bs = true) :
+    (chunkNode O bs).Enc := by
+  unfold chunkKnown at h
+  cases hc : O.chunk bs with
+  | none => simp [hc] at h
+  | some V =>
+    simp only [hc, beq_iff_eq] at h
+    rw [chunkNode_some O bs V hc h]
+    exact hC bs V hc
+
+theorem chunksOk_aget (O : Oracle) : ∀ (m : Fields) (k : Nat) (v : PVal),
+    chunksOkFields O m = true → aget k m = some v → v.chunksOk O = true := by
+  intro m
+  induction m with
+  | nil => intro k v _ h; simp [aget] at h
+  | cons e rest ih =>
+    intro k v hm h
+    obtain ⟨k', v'⟩ := e
+    simp only [chunksOkFields, Bool.and_eq_true] at hm
+    simp only [aget] at h
+    split at h
+    · cases h; exact hm.1
+    · exact ih k v hm.2 h
+
+theorem chunksOk_getPath (O : Oracle) : ∀ (path : List Nat) (m : Fields) (v : PVal),
+    chunksOkFields O m = true → getPath m path = some v → v.chunksOk O = true := by
+  intro path
+  induction path with
+  | nil => intro m v _ h; simp [getPath] at h
+  | cons k rest ih =>
+    intro m v hm h
+    cases rest with
+    | nil => simp only [getPath] at h; exact chunksOk_aget O m k v hm h
+    | cons k2 r2 =>
+      simp only [getPath] at h
+      split at h
+      · next sub hsub =>
+        have := chunksOk_aget O m k _ hm hsub
+        simp only [PVal.chunksOk] at this
+        exact ih sub v this h
+      · cases h
+
+theorem chunksOk_mem_list (O : Oracle) : ∀ (xs : List PVal) (x : PVal), chunksOkList O xs = true →
+    x ∈ xs → x.chunksOk O = true := by
+  intro xs
+  induction xs with
+  | nil => intro x _ h; cases h
+  | cons a r ih =>
+    intro x hx h
+    simp only [chunksOkList, Bool.and_eq_true] at hx
+    rcases List.mem_cons.mp h with rfl | h'
+    · exact hx.1
+    · exact ih x hx.2 h'
+
+theorem chunksOk_mem_map (O : Oracle) : ∀ (kvs : List (Bytes × PVal)) (kv : Bytes × PVal),
+    chunksOkMap O kvs = true → kv ∈ kvs → kv.2.chunksOk O = true := by
+  intro kvs
+  induction kvs with
+  | nil => intro x _ h; cases h
+  | cons a r ih =>
+    intro x hx h
+    obtain ⟨k, v⟩ := a
+    simp only [chunksOkMap, Bool.and_eq_true] at hx
+    rcases List.mem_cons.mp h with rfl | h'
+    · exact hx.1
+    · exact ih x hx.2 h'
+
+/-- the value is one the well-formedness theorem speaks about: either the environment has no `Any`
+at all (then the message is arbitrary), or every `j5_json` stored in it is a recognised chunk -/
+def GoodV (env : Env) (O : Oracle) (fld : Field) (v : PVal) : Prop :=
+  (env.noAny = true ∧ fieldNoAny fld = true) ∨ v.chunksOk O = true
+
+def GoodM (env : Env) (O : Oracle) (props : List PropDef) (m : Fields) : Prop :=
+  (env.noAny = true ∧ ∀ p ∈ props, fieldNoAny p.field = true) ∨ chunksOkFields O m = true
+
+theorem goodM_of_find (env : Env) (O : Oracle) (fld : Field) (ref : String) (ps : List PropDef)
+    (fs : Fields) (hg : GoodV env O fld (.msg fs))
+    (hf : env.find ref = some (.object ps) ∨ env.find ref = some (.oneof ps)) : GoodM env O ps fs := by
+  rcases hg with ⟨hna, _⟩ | hc
+  · exact Or.inl ⟨hna, find_noAny env hna ref ps hf⟩
+  · exact Or.inr (by simpa [PVal.chunksOk] using hc)
+
+theorem goodV_of_goodM (env : Env) (O : Oracle) (props : List PropDef) (m : Fields) (p : PropDef)
+    (v : PVal) (hg : GoodM env O props m) (hp : p ∈ props) (hv : getPath m p.path = some v) :
+    GoodV env O p.field v := by
+  rcases hg with ⟨hna, hall⟩ | hc
+  · exact Or.inl ⟨hna, hall p hp⟩
+  · exact Or.inr (chunksOk_getPath O p.path m v hc hv)
+
 /-- the facts about encoder trees at fuel `f` -/
 structure ET (env : Env) (O : Oracle) (f : Nat) : Prop where
-  val : ∀ fld v t, fieldNoAny fld = true → encValue env O f fld v = .ok t → t.Enc
-  fld : ∀ p m t, fieldNoAny p.field = true → encField env O f p m = .ok (some t) → t.Enc
-  obj : ∀ props m t, (∀ p ∈ props, fieldNoAny p.field = true) →
-    encObjectBody env O f props m = .ok t → t.Enc
-  one : ∀ ops m t, (∀ p ∈ ops, fieldNoAny p.field = true) →
-    encOneofBody env O f ops m = .ok t → t.Enc
+  val : ∀ fld v t, GoodV env O fld v → encValue env O f fld v = .ok t → t.Enc
+  fld : ∀ props p m t, GoodM env O props m → p ∈ props → encField env O f p m = .ok (some t) → t.Enc
+  obj : ∀ props m t, GoodM env O props m → encObjectBody env O f props m = .ok t → t.Enc
+  one : ∀ ops m t, GoodM env O ops m → encOneofBody env O f ops m = .ok t → t.Enc
+  root : ∀ r v t, v.chunksOk O = true → encRoot env O f r v = .ok t → t.Enc
 
 theorem member_enc (name : Bytes) (t : PTree) (e : Bytes × Bytes × PTree) (ht : t.Enc)
     (h : member name (.ok t) = .ok (some e)) : LitOk e.1 e.2.1 ∧ e.2.2.Enc := by
@@ -272,20 +374,21 @@ theorem member_enc (name : Bytes) (t : PTree) (e : Bytes × Bytes × PTree) (ht 
   cases ht'; cases hr
   exact ⟨LitOk_of_appendString name lit ha, ht⟩
 
-theorem ET_all (env : Env) (O : Oracle) (hna : env.noAny = true) (hO : FloatTextOk O) :
+theorem ET_all (env : Env) (O : Oracle) (hC : ChunkLaws O) (hO : FloatTextOk O) :
     ∀ f, ET env O f := by
   intro f
   induction f with
   | zero =>
-    refine ⟨?_, ?_, ?_, ?_⟩
+    refine ⟨?_, ?_, ?_, ?_, ?_⟩
     · intro fld v t _ h; simp [encValue] at h
-    · intro p m t _ h; simp [encField] at h
+    · intro props p m t _ _ h; simp [encField] at h
     · intro props m t _ h; simp [encObjectBody] at h
     · intro ops m t _ h; simp [encOneofBody] at h
+    · intro r v t _ h; simp [encRoot] at h
   | succ f ih =>
-    refine ⟨?_, ?_, ?_, ?_⟩
+    refine ⟨?_, ?_, ?_, ?_, ?_⟩
     · -- values
-      intro fld v t hfn h
+      intro fld v t hg h
       cases fld with
       | scalar k =>
         simp only [encValue] at h
@@ -301,23 +404,81 @@ theorem ET_all (env : Env) (O : Oracle) (hna : env.noAny = true) (hO : FloatText
         simp only [encValue] at h
         split at h
         · next props fs hfind =>
-          exact ih.obj props fs t (find_noAny env hna ref props (Or.inl hfind)) h
+          exact ih.obj props fs t (goodM_of_find env O _ ref props fs hg (Or.inl hfind)) h
         · cases h
       | oneof ref =>
         simp only [encValue] at h
         split at h
         · next ops fs hfind =>
-          exact ih.one ops fs t (find_noAny env hna ref ops (Or.inr hfind)) h
+          exact ih.one ops fs t (goodM_of_find env O _ ref ops fs hg (Or.inr hfind)) h
         · cases h
-      | any pb => simp [fieldNoAny] at hfn
+      | any pb =>
+        have hc : v.chunksOk O = true := by
+          rcases hg with ⟨_, hfn⟩ | hc
+          · simp [fieldNoAny] at hfn
+          · exact hc
+        simp only [encValue] at h
+        cases v <;> simp only [] at h <;> try (cases h)
+        case anyJ5 tn proto j5 ik iroot inner =>
+          simp only [PVal.chunksOk, Bool.and_eq_true, Bool.or_eq_true] at hc
+          split at h
+          · next data hdata =>
+            have hde : data.Enc := by
+              split at hdata
+              · next hj =>
+                cases hdata
+                rcases hc.1 with he | hk
+                · simp [he] at hj
+                · exact chunkNode_enc O hC j5 hk
+              · split at hdata
+                · split at hdata
+                  · cases hdata
+                  · cases hdata
+                  · exact ih.root iroot inner data hc.2 hdata
+                · cases hdata
+            split at h
+            · next typeLit tnNode valueLit h1 h2 h3 =>
+              cases h
+              simp only [PTree.Enc, PMembers.Enc]
+              exact ⟨LitOk_of_appendString _ _ h1, strNode_enc _ _ h2, LitOk_of_appendString _ _ h3,
+                hde, trivial⟩
+            all_goals cases h
+          · cases h
+          · cases h
+        case anyPb url val ik iroot inner =>
+          simp only [PVal.chunksOk] at hc
+          split at h
+          · next data hdata =>
+            have hde : data.Enc := by
+              split at hdata
+              · next hj => simp at hj
+              · split at hdata
+                · split at hdata
+                  · cases hdata
+                  · cases hdata
+                  · exact ih.root iroot inner data hc hdata
+                · cases hdata
+            split at h
+            · next typeLit tnNode valueLit h1 h2 h3 =>
+              cases h
+              simp only [PTree.Enc, PMembers.Enc]
+              exact ⟨LitOk_of_appendString _ _ h1, strNode_enc _ _ h2, LitOk_of_appendString _ _ h3,
+                hde, trivial⟩
+            all_goals cases h
+          · cases h
+          · cases h
       | array item =>
-        have hin : fieldNoAny item = true := by simpa [fieldNoAny] using hfn
         simp only [encValue] at h
         split at h
         · cases h
         · cases h
         · cases h
         · next xs _ _ _ =>
+          have hgi : ∀ x ∈ xs, GoodV env O item x := by
+            intro x hx
+            rcases hg with ⟨hna, hfn⟩ | hc
+            · exact Or.inl ⟨hna, by simpa [fieldNoAny] using hfn⟩
+            · exact Or.inr (chunksOk_mem_list O xs x (by simpa [PVal.chunksOk] using hc) hx)
           cases hr : xs.foldr (fun x acc => consElem (encValue env O f item x) acc)
               (.ok (.nil .closed)) with
           | err e => simp [hr] at h
@@ -328,17 +489,21 @@ theorem ET_all (env : Env) (O : Oracle) (hna : env.noAny = true) (hO : FloatText
             simp only [PTree.Enc]
             apply elemsOf_enc
             intro t' ht'
-            obtain ⟨x, _, hg⟩ := allEnc_mem _ xs ts hall t' ht'
-            exact ih.val item x t' hin hg
+            obtain ⟨x, hx, hgx⟩ := allEnc_mem _ xs ts hall t' ht'
+            exact ih.val item x t' (hgi x hx) hgx
         · cases h
       | map item =>
-        have hin : fieldNoAny item = true := by simpa [fieldNoAny] using hfn
         simp only [encValue] at h
         split at h
         · cases h
         · cases h
         · cases h
         · next kvs _ _ _ =>
+          have hgi : ∀ kv ∈ kvs, GoodV env O item kv.2 := by
+            intro kv hkv
+            rcases hg with ⟨hna, hfn⟩ | hc
+            · exact Or.inl ⟨hna, by simpa [fieldNoAny] using hfn⟩
+            · exact Or.inr (chunksOk_mem_map O kvs kv (by simpa [PVal.chunksOk] using hc) hkv)
           cases hr : kvs.foldr (fun kv acc =>
               consMember (member kv.1 (encValue env O f item kv.2)) acc) (.ok (.nil .closed)) with
           | err e => simp [hr] at h
@@ -349,11 +514,11 @@ theorem ET_all (env : Env) (O : Oracle) (hna : env.noAny = true) (hO : FloatText
             simp only [PTree.Enc]
             apply membersOf_enc
             intro e he
-            obtain ⟨kv, _, hk, ha, hg⟩ := allEncMap_mem _ kvs es hall e he
-            exact ⟨by rw [hk]; exact LitOk_of_appendString _ _ ha, ih.val item kv.2 e.2.2 hin hg⟩
+            obtain ⟨kv, hkv, hk, ha, hgx⟩ := allEncMap_mem _ kvs es hall e he
+            exact ⟨by rw [hk]; exact LitOk_of_appendString _ _ ha, ih.val item kv.2 e.2.2 (hgi kv hkv) hgx⟩
         · cases h
     · -- a property
-      intro p m t hfn h
+      intro props p m t hg hpm h
       simp only [encField] at h
       split at h
       · -- exposed oneof
@@ -364,21 +529,27 @@ theorem ET_all (env : Env) (O : Oracle) (hna : env.noAny = true) (hO : FloatText
             · split at h
               · next t' ht' =>
                 cases h
-                exact ih.one ops m _ (find_noAny env hna _ ops (Or.inr hfind)) ht'
+                refine ih.one ops m _ ?_ ht'
+                rcases hg with ⟨hna, _⟩ | hc
+                · exact Or.inl ⟨hna, find_noAny env hna _ ops (Or.inr hfind)⟩
+                · exact Or.inr hc
               · cases h
               · cases h
             · cases h
           · cases h
         · cases h
-      · split at h
+      · next path hpath =>
+        split at h
         · cases h
-        · next v _ =>
+        · next v hv =>
           split at h
-          · next t' ht' => cases h; exact ih.val p.field v _ hfn ht'
+          · next t' ht' =>
+            cases h
+            exact ih.val p.field v _ (goodV_of_goodM env O props m p v hg hpm hv) ht'
           · cases h
           · cases h
     · -- object body
-      intro props m t hps h
+      intro props m t hg h
       simp only [encObjectBody] at h
       split at h
       · next ms hr =>
@@ -387,21 +558,21 @@ theorem ET_all (env : Env) (O : Oracle) (hna : env.noAny = true) (hO : FloatText
         simp only [PTree.Enc]
         apply membersOf_enc
         intro e he
-        obtain ⟨p, hp, hg⟩ := allEncProps_mem _ props es hall e he
-        split at hg
-        · cases hg
+        obtain ⟨p, hp, hgp⟩ := allEncProps_mem _ props es hall e he
+        split at hgp
+        · cases hgp
         · next q hq =>
           have hqm := findProp_mem props _ q hq
-          split at hg
-          · cases hg
+          split at hgp
+          · cases hgp
           · next t' ht' =>
-            exact member_enc q.jsonName t' e (ih.fld q m t' (hps q hqm) ht') hg
-          · cases hg
-          · cases hg
+            exact member_enc q.jsonName t' e (ih.fld props q m t' hg hqm ht') hgp
+          · cases hgp
+          · cases hgp
       · cases h
       · cases h
     · -- oneof body
-      intro ops m t hps h
+      intro ops m t hg h
       simp only [encOneofBody] at h
       split at h
       · cases h; simp [PTree.Enc, PMembers.Enc]
@@ -419,7 +590,7 @@ theorem ET_all (env : Env) (O : Oracle) (hna : env.noAny = true) (hO : FloatText
                 split at h
                 · next k kraw v hmem =>
                   cases h
-                  have hme := member_enc q.jsonName t' (k, kraw, v) (ih.fld q m t' (hps q hqm) ht') hmem
+                  have hme := member_enc q.jsonName t' (k, kraw, v) (ih.fld ops q m t' hg hqm ht') hmem
                   simp only [PTree.Enc, PMembers.Enc]
                   exact ⟨LitOk_of_appendString _ _ htl, strNode_enc _ _ hn, hme.1, hme.2, trivial⟩
                 · cases h
@@ -433,11 +604,22 @@ theorem ET_all (env : Env) (O : Oracle) (hna : env.noAny = true) (hO : FloatText
           · cases h
           · cases h
       · cases h
+    · -- root
+      intro r v t hc h
+      simp only [encRoot] at h
+      split at h
+      · next props fs hfind =>
+        exact ih.obj props fs t (Or.inr (by simpa [PVal.chunksOk] using hc)) h
+      · next ops fs hfind =>
+        exact ih.one ops fs t (Or.inr (by simpa [PVal.chunksOk] using hc)) h
+      · cases h
 
-/-- whatever tree the encoder produces (for any message at all, of an environment without `Any`)
-is an encoder tree: closed containers, literals that read back -/
-theorem encodeTree_enc (env : Env) (O : Oracle) (hna : env.noAny = true) (hO : FloatTextOk O)
-    (root : String) (v : PVal) (t : PTree) (h : encodeTree env O root v = .ok t) : t.Enc := by
+/-- whatever tree the encoder produces — for any message at all of an environment without `Any`,
+or for a message of any environment whose stored `j5_json` chunks are all recognised — is an
+encoder tree: closed containers, literals that read back -/
+theorem encodeTree_enc' (env : Env) (O : Oracle) (hC : ChunkLaws O) (hO : FloatTextOk O)
+    (root : String) (v : PVal) (t : PTree) (hg : env.noAny = true ∨ v.chunksOk O = true)
+    (h : encodeTree env O root v = .ok t) : t.Enc := by
   unfold encodeTree at h
   generalize encFuel v = f at h
   cases f with
@@ -446,9 +628,15 @@ theorem encodeTree_enc (env : Env) (O : Oracle) (hna : env.noAny = true) (hO : F
     simp only [encRoot] at h
     split at h
     · next props fs hfind =>
-      exact (ET_all env O hna hO f).obj props fs t (find_noAny env hna root props (Or.inl hfind)) h
+      refine (ET_all env O hC hO f).obj props fs t ?_ h
+      rcases hg with hna | hc
+      · exact Or.inl ⟨hna, find_noAny env hna root props (Or.inl hfind)⟩
+      · exact Or.inr (by simpa [PVal.chunksOk] using hc)
     · next ops fs hfind =>
-      exact (ET_all env O hna hO f).one ops fs t (find_noAny env hna root ops (Or.inr hfind)) h
+      refine (ET_all env O hC hO f).one ops fs t ?_ h
+      rcases hg with hna | hc
+      · exact Or.inl ⟨hna, find_noAny env hna root ops (Or.inr hfind)⟩
+      · exact Or.inr (by simpa [PVal.chunksOk] using hc)
     · cases h
 
 end J5V.Codec
@@ -456,43 +644,119 @@ end J5V.Codec
 namespace J5V.Codec
 open J5V.Go J5V.Json
 
-theorem fieldSimple_noAny (fld : Field) (h : fieldSimple fld = true) : fieldNoAny fld = true := by
-  cases fld with
-  | array i => cases i <;> simp [fieldSimple, itemSimple, fieldNoAny] at h ⊢
-  | map i => cases i <;> simp [fieldSimple, itemSimple, fieldNoAny] at h ⊢
-  | any pb => simp [fieldSimple] at h
-  | _ => rfl
+/-! ## a representable message holds only recognised chunks -/
 
-theorem flat_noAny (env : Env) (h : env.flat = true) : env.noAny = true := by
-  unfold Env.flat at h
-  simp only [Bool.and_eq_true] at h
-  unfold Env.noAny
-  apply List.all_eq_true.mpr
-  intro d hd
-  have hr := List.all_eq_true.mp h.1 d hd
-  cases hroot : d.2 with
-  | object ps =>
-    rw [hroot] at hr
-    simp only []
-    apply List.all_eq_true.mpr
-    intro p hp
-    rcases (object_root_facts env ps hr).1 p hp with h1 | h1
-    · exact fieldSimple_noAny _ (propFlat_inv p h1).2
-    · obtain ⟨_, _, ref, ops, hpf, _⟩ := propExposed_inv env p h1
-      rw [hpf]; rfl
-  | oneof ps =>
-    rw [hroot] at hr
-    simp only []
-    apply List.all_eq_true.mpr
-    intro p hp
-    exact fieldSimple_noAny _ (propSimple_field p ((oneof_root_facts ps hr).1 p hp))
-  | «enum» a b => rfl
-  | noschema => rfl
+theorem scalarOk_not_any (O : Oracle) (k : ScalarKind) (v : PVal)
+    (hv : (∃ a b c d e, v = .anyPb a b c d e) ∨ (∃ a b c d e f, v = .anyJ5 a b c d e f)) :
+    scalarOk O k v = false := by
+  rcases hv with ⟨a, b, c, d, e, rfl⟩ | ⟨a, b, c, d, e, f, rfl⟩ <;>
+    cases k <;> simp [scalarOk, scalarRepr]
 
-/-- **byte-level well-formedness**: every successful encoding (of any message whatsoever, in an
-environment without `Any`) is accepted by the strict parser, which returns the encoder's tree -/
-theorem encodeBytes_parses (env : Env) (O : Oracle) (hna : env.noAny = true) (hO : FloatTextOk O)
-    (root : String) (v : PVal) (bs : Bytes) (h : encodeBytes env O root v = .ok bs) :
+mutual
+theorem valOk_chunksOk (env : Env) (O : Oracle) : (v : PVal) → (fld : Field) →
+    valOk env O fld v = true → v.chunksOk O = true
+  | .msg fs, fld, h => by
+    simp only [PVal.chunksOk]
+    cases fld with
+    | object ref =>
+      obtain ⟨fs', props, hv, _, _, hfok, _, _⟩ := valOk_object env O ref _ h
+      cases hv
+      exact fieldsOk_chunksOk env O fs props hfok
+    | oneof ref =>
+      obtain ⟨fs', ops, hv, _, _, hfok, _⟩ := valOk_oneof env O ref _ h
+      cases hv
+      exact fieldsOk_chunksOk env O fs ops hfok
+    | _ => simp [valOk] at h
+  | .list xs, fld, h => by
+    simp only [PVal.chunksOk]
+    cases fld with
+    | array item =>
+      obtain ⟨xs', hv, hl⟩ := valOk_array env O item _ h
+      cases hv
+      exact listOk_chunksOk env O xs item hl
+    | _ => simp [valOk] at h
+  | .map kvs, fld, h => by
+    simp only [PVal.chunksOk]
+    cases fld with
+    | map item =>
+      obtain ⟨kvs', hv, hm⟩ := valOk_map env O item _ h
+      cases hv
+      exact mapOk_chunksOk env O kvs item [] hm
+    | _ => simp [valOk] at h
+  | .anyJ5 tn proto j5 ik iroot inner, fld, h => by
+    cases fld with
+    | any pb =>
+      cases pb with
+      | true => simp [valOk] at h
+      | false =>
+        obtain ⟨tn', j5', V, hv, _, _, _, hch, hr, _, _⟩ := valOk_any env O _ h
+        cases hv
+        simp [PVal.chunksOk, chunksOkFields, chunkKnown, hch, hr]
+    | _ => simp [valOk] at h
+  | .anyPb a b c d e, fld, h => by
+    cases fld with
+    | scalar k =>
+      have := scalarOk_not_any O k (.anyPb a b c d e) (Or.inl ⟨a, b, c, d, e, rfl⟩)
+      simp [valOk, this] at h
+    | _ => simp [valOk] at h
+  | .bool _, _, _ => rfl
+  | .int _, _, _ => rfl
+  | .uint _, _, _ => rfl
+  | .f32 _, _, _ => rfl
+  | .f64 _, _, _ => rfl
+  | .str _, _, _ => rfl
+  | .bytes _, _, _ => rfl
+  | .enum _, _, _ => rfl
+  | .ts _ _, _, _ => rfl
+  | .date _ _ _, _, _ => rfl
+  | .dec _, _, _ => rfl
+termination_by v => sizeOf v
+
+theorem fieldsOk_chunksOk (env : Env) (O : Oracle) : (fs : Fields) → (props : List PropDef) →
+    fieldsOk env O props fs = true → chunksOkFields O fs = true
+  | [], _, _ => rfl
+  | (k, v) :: rest, props, h => by
+    rw [fieldsOk_cons] at h
+    simp only [Bool.and_eq_true] at h
+    simp only [chunksOkFields, Bool.and_eq_true]
+    refine ⟨?_, fieldsOk_chunksOk env O rest props h.2⟩
+    have h1 := h.1
+    split at h1
+    · next p _ =>
+      simp only [Bool.and_eq_true] at h1
+      exact valOk_chunksOk env O v p.field h1.1
+    · cases v with
+      | msg sub =>
+        simp only [Bool.and_eq_true] at h1
+        simp only [PVal.chunksOk]
+        exact fieldsOk_chunksOk env O sub _ h1.2
+      | _ => cases h1
+termination_by fs => sizeOf fs
+
+theorem listOk_chunksOk (env : Env) (O : Oracle) : (xs : List PVal) → (item : Field) →
+    listOk env O item xs = true → chunksOkList O xs = true
+  | [], _, _ => rfl
+  | x :: rest, item, h => by
+    simp only [listOk, Bool.and_eq_true] at h
+    simp only [chunksOkList, Bool.and_eq_true]
+    exact ⟨valOk_chunksOk env O x item h.1, listOk_chunksOk env O rest item h.2⟩
+termination_by xs => sizeOf xs
+
+theorem mapOk_chunksOk (env : Env) (O : Oracle) : (kvs : List (Bytes × PVal)) → (item : Field) →
+    (seen : List Bytes) → mapOk env O item seen kvs = true → chunksOkMap O kvs = true
+  | [], _, _, _ => rfl
+  | (k, v) :: rest, item, seen, h => by
+    simp only [mapOk, Bool.and_eq_true] at h
+    simp only [chunksOkMap, Bool.and_eq_true]
+    exact ⟨valOk_chunksOk env O v item h.1.2, mapOk_chunksOk env O rest item _ h.2⟩
+termination_by kvs => sizeOf kvs
+end
+
+/-- `Codec.ProtoToJSON` output parses with the strict reader — for ANY message of an environment
+without `Any`, and for any message of any environment whose stored `j5_json` chunks are recognised -/
+theorem encodeBytes_parses' (env : Env) (O : Oracle) (hC : ChunkLaws O) (hO : FloatTextOk O)
+    (root : String) (v : PVal) (bs : Bytes) (hg : env.noAny = true ∨ v.chunksOk O = true)
+    (h : encodeBytes env O root v = .ok bs) :
     ∃ t, encodeTree env O root v = .ok t ∧ bs = t.render ∧ parse bs = some t := by
   unfold encodeBytes at h
   cases ht : encodeTree env O root v with
@@ -500,19 +764,25 @@ theorem encodeBytes_parses (env : Env) (O : Oracle) (hna : env.noAny = true) (hO
   | panic w => simp [ht] at h
   | ok t =>
     simp only [ht] at h; cases h
-    exact ⟨t, rfl, rfl, parse_render t (encodeTree_enc env O hna hO root v t ht)⟩
+    exact ⟨t, rfl, rfl, parse_render t (encodeTree_enc' env O hC hO root v t hg ht)⟩
 
 /-- **byte-level round trip with progress**: `Codec.ProtoToJSON` succeeds on every representable
-message of a flat environment and `Codec.JSONToProto` maps the bytes back to exactly that message -/
-theorem roundtrip_bytes (c : Cfg) (hs : c.env.flat = true) (L : OracleLaws c.O) (root : String)
+message of a flat environment (j5 `Any` included, codec without `WithProtoToAny`) and
+`Codec.JSONToProto` maps the bytes back to exactly that message -/
+theorem roundtrip_bytes (c : Cfg) (hs : c.env.flat = true) (L : OracleLaws c.O)
+    (hC : ChunkLaws c.O) (hA : c.protoToAny = false ∨ c.env.noAny = true) (root : String)
     (m : Fields)
     (hok : valOk c.env c.O (.object root) (.msg m) = true ∨ valOk c.env c.O (.oneof root) (.msg m) = true) :
     ∃ bs, encodeBytes c.env c.O root (.msg m) = .ok bs ∧ decodeBytes c root bs = .ok m := by
-  obtain ⟨t, ht, hdec⟩ := roundtrip_tree_flat c hs L root m hok
+  obtain ⟨t, ht, hdec⟩ := roundtrip_tree_flat c hs L hA root m hok
   refine ⟨t.render, by simp [encodeBytes, ht], ?_⟩
   unfold decodeBytes
-  rw [readDoc_render t (encodeTree_enc c.env c.O (flat_noAny c.env hs) (floatTextOk_of_laws c.O L)
-    root (.msg m) t ht)]
+  have hch : (PVal.msg m).chunksOk c.O = true := by
+    rcases hok with hok | hok
+    · exact valOk_chunksOk _ _ _ _ hok
+    · exact valOk_chunksOk _ _ _ _ hok
+  rw [readDoc_render t (encodeTree_enc' c.env c.O hC (floatTextOk_of_laws c.O L)
+    root (.msg m) t (Or.inr hch) ht)]
   exact hdec
 
 /-- the shape of an encoded `Any` -/
